@@ -58,12 +58,22 @@ def check(ctx: Ctx) -> None:
     with ctx.obligation("C14.b", "clear-after-wait") as ob:
         clears = cfg_nodes_with_call(cfgs, lambda c: _is_evt_call(c, "clear"))
         waits = [n for n in cfgs.nodes if n.kind == "test" and any(_is_evt_call(c, "wait") for c in calls_in_node(n))]
+        wait_vars = {}
+        if not waits:
+            # `done = X.wait(timeout=..)` ; `if not done:`
+            for n in cfgs.nodes:
+                if n.kind == "stmt" and isinstance(n.ast, ast.Assign) and isinstance(n.ast.value, ast.Call) and _is_evt_call(n.ast.value, "wait") and isinstance(n.ast.targets[0], ast.Name):
+                    var = n.ast.targets[0].id
+                    for t in cfgs.nodes:
+                        if t.kind == "test" and unparse(t.ast) in (var, f"not {var}") and cfgs.dominated_by(t.id, n.id):
+                            waits.append(t)
+                            wait_vars[t.id] = (var, n.ast.value)
         spawns = cfg_nodes_with_call(cfgs, lambda c: callee_attr(c) == "spawn")
         ob.require(bool(waits) and bool(spawns), "wait/spawn anchors missing in _local_schedulexec")
         if not clears:
             ob.site(fs, fs.node, "clear() of the completion event in the scheduling step", found=False)
         for w in waits:
-            wc = [c for c in calls_in_node(w) if _is_evt_call(c, "wait")][0]
+            wc = wait_vars[w.id][1] if w.id in wait_vars else [c for c in calls_in_node(w) if _is_evt_call(c, "wait")][0]
             to = arg(wc, 0, "timeout")
             val = repo.fold_in(to, fs) if to is not None else None
             ob.site(fs, wc, f"bounded wait timeout={val!r}")
@@ -72,7 +82,7 @@ def check(ctx: Ctx) -> None:
                                      "answer can be given although the previous body is just finishing")
         for cl in clears:
             atoms_ = guard_atoms(cfgs, cl.id)
-            ok = any(pol and f"{EVT}.wait(" in a for (a, pol, _t) in atoms_)
+            ok = any(pol and (f"{EVT}.wait(" in a or a in {v for v, _c in wait_vars.values()}) for (a, pol, _t) in atoms_)
             ob.site(fs, cl.ast, "clear() dominated by successful wait", guards=[f"{a}={p}" for a, p, _ in atoms_])
             if not ok:
                 ob.violation(fs, cl.ast, "clear() of the completion event is not dominated by a successful wait()")
